@@ -92,6 +92,11 @@ func (s *faultyStore) UpdateCRLLocations(p *core.CRLLocations) error {
 
 // Update hands the real stores to each other: the backends type-assert their argument.
 func (s *faultyStore) Update(n crlstore.CRLStore) error {
+	// "Update" in a plan speaks about the LIVE store (the receiver): the switch to the staged list fails before it
+	// had any effect
+	if err := s.f.plan("Update", s.temp); err != nil {
+		return err
+	}
 	if w, ok := n.(*faultyStore); ok {
 		n = w.CRLStore
 	}
